@@ -532,9 +532,20 @@ def supply_helpers(unit, res):
     return text
 
 
+def _stable(path, workname):
+    """keep the emitted text under its stable name for inspection (evidence points at it); the run itself used a per-process name"""
+    stable = os.path.join(WORK, workname + ".rs")
+    try:
+        os.replace(path, stable)
+        return stable
+    except OSError:
+        return path
+
+
 def run_verus(text, workname, rlimit=None, extra_args=None, timeout=900):
     os.makedirs(WORK, exist_ok=True)
-    path = os.path.join(WORK, workname + ".rs")
+    # one file per process: two checks of the same property running at once (e.g. a check and a mutation run) must not share it
+    path = os.path.join(WORK, f"{workname}_p{os.getpid()}.rs")
     with open(path, "w") as fh:
         fh.write(text)
     cmd = ["verus", path, "--output-json", "--time-expanded", "--error-format=json", "--multiple-errors", "12"]
@@ -546,7 +557,8 @@ def run_verus(text, workname, rlimit=None, extra_args=None, timeout=900):
         p = subprocess.run(cmd, capture_output=True, text=True, timeout=timeout, cwd=WORK)
         to = False
     except subprocess.TimeoutExpired as ex:
-        return {"cmd": " ".join(cmd), "timeout": True, "wall_s": time.time() - t0, "diags": [], "json": None, "raw_err": str(ex)[:2000], "path": path}
+        shown = " ".join(cmd).replace(path, _stable(path, workname))
+        return {"cmd": shown, "timeout": True, "wall_s": time.time() - t0, "diags": [], "json": None, "raw_err": str(ex)[:2000], "path": path}
     diags = []
     raw = []
     for l in p.stderr.splitlines():
@@ -563,7 +575,9 @@ def run_verus(text, workname, rlimit=None, extra_args=None, timeout=900):
         js = json.loads(p.stdout)
     except Exception:
         pass
-    return {"cmd": " ".join(cmd), "timeout": False, "wall_s": time.time() - t0, "diags": diags, "json": js, "raw_err": "\n".join(raw)[-4000:], "rc": p.returncode, "path": path}
+    run_path = path
+    path = _stable(path, workname)
+    return {"cmd": " ".join(cmd).replace(run_path, path), "timeout": False, "wall_s": time.time() - t0, "diags": diags, "json": js, "raw_err": "\n".join(raw)[-4000:], "rc": p.returncode, "path": path}
 
 
 def classify(unit, res):
